@@ -38,6 +38,12 @@ def _run(c, prop):
         pr = c.harness(binp, 'jobprobe', {'n': 4 if quick else 16}, timeout=120)
         c.absorb(pr)
         c.cov['job_atomicity_probes'] = pr['completed']
+        if prop == 'C26':
+            pr2 = c.harness(binp, 'subfailprobe', {'n': 3 if quick else 10}, timeout=120)
+            c.absorb(pr2)
+            c.cov['subscribe_failure_probes'] = pr2['completed']
+            c.cov['traces_validated_against_impl'] += pr2['completed']
+            c.cov['evaluations'] += pr2['executed']
         c.cov['traces_validated_against_impl'] += pr['completed']
         c.cov['evaluations'] += pr['executed']
         c.cov['samples'] += pr['samples'][:1]
